@@ -44,19 +44,8 @@ Check C05_display_alphabet : forall S xs,
   /\ ((forall b, b < 32 \/ b = 127 -> aset_contains S b = true) -> Forall ok_or_space (pe_display S xs)).
 Print Assumptions C05_display_alphabet.
 
-(* what push_encoded (= utf8_percent_encode appended to the serialization) adds, per component set.
-   `added` is in 0x21..0x7E and contains none of the listed delimiters; text = any code points. *)
-Definition adds_clean (set : aset) (D : list N) : Prop :=
-  forall ser text, exists added,
-    push_encoded set ser text = ser ++ added /\ Forall ok_byte added /\ forall d, In d D -> ~ In d added.
-
-Lemma adds_clean_of set D :
-  covers_ctl_b set = true -> covers_list set D = true -> no_pct_hex_b D = true -> adds_clean set D.
-Proof.
-  intros H1 H2 H3 ser text. eexists. split; [reflexivity|].
-  exact (pe_display_clean set D (utf8_encode text) H1 H2 H3).
-Qed.
-
+(* adds_clean set D (Proofs/C05_Parser.v): for every serialization prefix and every text (ANY code
+   points), push_encoded set ser text = ser ++ added with `added` inside 0x21..0x7E and free of D *)
 (* / : ; = @ [ \ ] ^ | ? # space dquote < > backtick { } *)
 Theorem C05_userinfo_enc :
   adds_clean T_USERINFO [47; 58; 59; 61; 64; 91; 92; 93; 94; 124; 63; 35; 32; 34; 60; 62; 96; 123; 125].
@@ -75,25 +64,7 @@ Theorem C05_path_enc :
   /\ (forall text, usv_list text ->
         decode (pe_display T_PATH_SEGMENT (utf8_encode text)) = utf8_encode text
         /\ decode (pe_display T_SPECIAL_PATH_SEGMENT (utf8_encode text)) = utf8_encode text).
-Proof.
-  split; [apply adds_clean_of; [apply T_PATH_facts | apply T_PATH_facts | reflexivity]|].
-  split; [apply adds_clean_of; [apply T_PATH_SEGMENT_facts | | reflexivity]|].
-  { pose proof (proj2 T_PATH_SEGMENT_facts) as H. cbn [covers_list forallb] in H.
-    apply andb_true_iff in H. exact (proj2 H). }
-  split; [apply adds_clean_of; [apply T_SPECIAL_PATH_SEGMENT_facts | | reflexivity]|].
-  { pose proof (proj2 T_SPECIAL_PATH_SEGMENT_facts) as H. cbn [covers_list forallb] in H.
-    apply andb_true_iff in H. exact (proj2 H). }
-  assert (aset_contains T_PATH_SEGMENT 37 = true) as A1.
-  { pose proof (proj2 T_PATH_SEGMENT_facts) as H. cbn [covers_list forallb] in H.
-    apply andb_true_iff in H. exact (proj1 H). }
-  assert (aset_contains T_SPECIAL_PATH_SEGMENT 37 = true) as A2.
-  { pose proof (proj2 T_SPECIAL_PATH_SEGMENT_facts) as H. cbn [covers_list forallb] in H.
-    apply andb_true_iff in H. exact (proj1 H). }
-  split; [exact A1|]. split; [exact A2|].
-  intros text Hu. pose proof (utf8_encode_bytes text Hu) as Hb.
-  rewrite !pe_display_is_encode by exact Hb.
-  split; apply decode_encode; assumption.
-Qed.
+Proof. exact path_enc_facts. Qed.
 Print Assumptions C05_path_enc.
 
 (* QUERY: # space dquote < > ; SPECIAL_QUERY additionally the apostrophe *)
@@ -214,3 +185,21 @@ Example C05_nonvacuous :
     /\ ser u = [97;58;120;32;121;63;113;37;50;48;114;35;102;37;50;48;103]
     /\ cannot_be_a_base u = Some true).
 Proof. split; eexists; vm_compute; repeat split; reflexivity. Qed.
+
+(* the hypotheses HostOK / IpOK are satisfiable: a host parser that accepts exactly the texts inside
+   0x21..0x7E and prints them back (and prints nothing for IP values) *)
+Definition okb (b : N) : bool := (33 <=? b) && (b <=? 126).
+Definition ex_hp2 (s : list N) : result host := if forallb okb s then Ok (HDomain s) else Err IdnaError.
+
+Example C05_hypotheses_inhabited :
+  HostOK ex_hp2 ex_hp2 ex_hd /\ IpOK ex_hd
+  /\ exists u, parse_url true ex_hp2 ex_hp2 ex_hd None None [104;116;116;112;58;47;47;104;47;32;120] = POk u
+               /\ ser u = [104;116;116;112;58;47;47;104;47;37;50;48;120].
+Proof.
+  split; [|split].
+  - intros h [->|[[s Hs]|[s Hs]]]; [constructor| |];
+      unfold ex_hp2 in Hs; destruct (forallb okb s) eqn:E; try discriminate; inversion Hs; subst; cbn [ex_hd];
+      rewrite forallb_forall in E; apply Forall_forall; intros x Hx; specialize (E x Hx); unfold okb, ok_byte in *; lia.
+  - intros h Hh. destruct h; [destruct Hh | constructor | constructor].
+  - eexists. vm_compute. split; reflexivity.
+Qed.
